@@ -59,19 +59,27 @@ def KState.afterLostProduct (s : KState) (k : Key) : M KState :=
   | .st => pure s
   | .file | .root => throw .assert
 
+/-- `Node.detach`: cut the creator link and propagate the flag to the recursive products. -/
+def KState.detachCore (s : KState) (k : Key) (n : Node) : M KState :=
+  if n.creator.isSome then do
+    let s ← s.setCreator k none true
+    pure (if !n.detached then s.setDetachedRec k true else s)
+  else pure s
+
+/-- The extra work of `Step.detach`: flag the subtree and the upstream source steps. -/
+def KState.detachFlags (s : KState) (k : Key) : M KState :=
+  if k.kind = .step then do
+    let s ← s.flagChecksWithProducts k
+    s.flagCheckAfterSources k
+  else pure s
+
 /-- `Node.detach` (+ `Step.detach`). -/
-def KState.detach (s : KState) (k : Key) : M KState := do
+def KState.detach (s : KState) (k : Key) : M KState :=
   match s.find? k with
   | none => throw .value
-  | some n =>
-    let s ← if n.creator.isSome then do
-        let s ← s.setCreator k none true
-        pure (if !n.detached then s.setDetachedRec k true else s)
-      else pure s
-    if k.kind = .step then
-      let s ← s.flagChecksWithProducts k
-      s.flagCheckAfterSources k
-    else pure s
+  | some n => do
+    let s ← s.detachCore k n
+    s.detachFlags k
 
 /-- Walking up the creator links from `c` (root excluded) meets `k`: `c` is `k` or one of its
 (recursive) products.  The walk is the loop of `Trellis.raise_if_created_by`. -/
@@ -87,21 +95,30 @@ def KState.createdBy (s : KState) (k c : Key) : Bool :=
         | none => false
   go (s.nodes.length + 1) c
 
+/-- The old creator of a node that gets a new one: it must be detached, and it loses a product. -/
+def KState.lostProduct (s : KState) (old : Option Key) : M KState :=
+  match old with
+  | some oc => if !(s.isDetached oc) then throw .consistency else s.afterLostProduct oc
+  | none => pure s
+
+def KState.flagIfStep (s : KState) (k : Key) : M KState :=
+  if k.kind = .step then s.flagChecksWithProducts k else pure s
+
+/-- The writes of `Node.reattach` once its guards have passed. -/
+def KState.reattachCore (s : KState) (k c : Key) (n : Node) : M KState := do
+  let d := s.isDetached c
+  let s1 ← s.setCreator k (some c) d
+  let s2 ← s1.lostProduct n.creator
+  (s2.setDetachedRec k d).flagIfStep k
+
 /-- `Node.reattach` (+ `Step.reattach`). -/
-def KState.reattach (s : KState) (k c : Key) : M KState := do
+def KState.reattach (s : KState) (k c : Key) : M KState :=
   match s.find? k with
   | none => throw .value
   | some n =>
     if !n.detached then throw .value
-    if s.createdBy k c then throw (.graph "recreated by itself or by one of its own products")
-    let d := s.isDetached c
-    let s ← s.setCreator k (some c) d
-    let s ← match n.creator with
-      | some oc =>
-        if !(s.isDetached oc) then throw .consistency else s.afterLostProduct oc
-      | none => pure s
-    let s := s.setDetachedRec k d
-    if k.kind = .step then s.flagChecksWithProducts k else pure s
+    else if s.createdBy k c then throw (.graph "recreated by itself or by one of its own products")
+    else s.reattachCore k c n
 
 /-! ## `Trellis.create` -/
 
@@ -127,20 +144,25 @@ inductive Init
   | step (i : StepInit)
   | tree
 
+/-- `File.initialize_row`: a recycled row that was BUILT or OUTDATED keeps that state when the
+requested one is UNDECLARED or PLANNED. -/
+def KState.keptState (s : KState) (k : Key) (state : FileState) (existed : Bool) : FileState :=
+  match (s.find? k).map (·.fstate) with
+  | some o =>
+    if existed ∧ (state = .undeclared ∨ state = .planned) ∧ (o = .built ∨ o = .outdated) then o else state
+  | none => state
+
+/-- The upsert of `File.initialize_row`: UPDATE arm for a recycled row, fresh INSERT otherwise
+(`file_check_undeclared_detached_ins`, `step_file_check_ready_ins`). -/
+def KState.writeInitialFile (s : KState) (k : Key) (state : FileState) (existed : Bool) : M KState :=
+  if existed then s.setFileState k state
+  else if state = .undeclared ∧ !(s.isDetached k) then throw .integrity
+  else pure ((s.modify k fun n => { n with fstate := state, fhash := none }).flagReadySinks k)
+
 /-- `File.initialize_row` (the upsert and its triggers); `existed`: the row was there before. -/
 def KState.initFileRow (s : KState) (k : Key) (state : FileState) (existed : Bool) : M KState := do
-  let old := (s.find? k).map (·.fstate)
-  let state := match old with
-    | some o =>
-      if existed ∧ (state = .undeclared ∨ state = .planned) ∧ (o = .built ∨ o = .outdated) then o else state
-    | none => state
-  let s ← if existed then s.setFileState k state
-    else do
-      -- fresh INSERT: file_check_undeclared_detached_ins, step_file_check_ready_ins
-      if state = .undeclared ∧ !(s.isDetached k) then throw .integrity
-      let s := s.modify k fun n => { n with fstate := state, fhash := none }
-      pure (s.flagReadySinks k)
-  if state = .built then s.markFileOutdated k else pure s
+  let s1 ← s.writeInitialFile k (s.keptState k state existed) existed
+  if s.keptState k state existed = .built then s1.markFileOutdated k else pure s1
 
 /-- `Step.initialize_row`: DELETE + INSERT of the step row; satellites survive. -/
 def KState.initStepRow (s : KState) (k : Key) (i : StepInit) : KState :=
@@ -157,32 +179,41 @@ def KState.initRow (s : KState) (k : Key) (init : Init) (existed : Bool) : M KSt
   | .file st => s.initFileRow k st existed
   | .step i => pure (s.initStepRow k i)
 
+def KState.creatorDetached (s : KState) (creator : Option Key) : Bool :=
+  match creator with | some c => s.isDetached c | none => true
+
+/-- Detach every product of `k` (ordered by kind, label in the code; the result does not depend on it). -/
+def KState.detachProducts (s : KState) (k : Key) : M KState :=
+  (s.products k).foldlM (fun s p => s.detach p.key) s
+
+/-- The recycle branch of `Trellis.create`, once its guards have passed. -/
+def KState.recycleCore (s : KState) (k : Key) (n : Node) (creator : Option Key) (init : Init) : M KState := do
+  let s1 ← s.setCreator k creator (s.creatorDetached creator)
+  let s2 ← s1.lostProduct n.creator
+  let s3 ← (s2.deleteDeps fun dp => dp.snk = k).detachProducts k
+  s3.initRow k init true
+
+def KState.insertAllowed (s : KState) (k : Key) (creator : Option Key) : Bool :=
+  match creator with
+  | some c =>
+    (match s.find? c with
+     | some cn => creatorKindOk k.kind cn.key.kind
+     | none => false)
+  | none => true
+
+def KState.appendNode (s : KState) (k : Key) (creator : Option Key) : KState :=
+  { s with nodes := s.nodes ++ [({ key := k, creator := creator, detached := s.creatorDetached creator } : Node)] }
+
 /-- `Trellis.create` (label already adjusted). -/
-def KState.create (s : KState) (k : Key) (creator : Option Key) (init : Init) : M KState := do
+def KState.create (s : KState) (k : Key) (creator : Option Key) (init : Init) : M KState :=
   match s.find? k with
   | some n =>
     if !n.detached then throw .consistency
-    if creator = some k then throw (.graph "recreated by itself")
-    let d := match creator with | some c => s.isDetached c | none => true
-    let s ← s.setCreator k creator d
-    let s ← match n.creator with
-      | some oc => if !(s.isDetached oc) then throw .consistency else s.afterLostProduct oc
-      | none => pure s
-    -- del_all_sources
-    let s := s.deleteDeps fun dp => dp.snk = k
-    -- detach every product (ordered by kind, label in the code; the result does not depend on it)
-    let s ← (s.products k).foldlM (fun s p => s.detach p.key) s
-    s.initRow k init true
+    else if creator = some k then throw (.graph "recreated by itself")
+    else s.recycleCore k n creator init
   | none =>
-    let d := match creator with | some c => s.isDetached c | none => true
-    match creator with
-    | some c =>
-      match s.find? c with
-      | some cn => if creatorKindOk k.kind cn.key.kind then pure () else throw .integrity
-      | none => throw .integrity
-    | none => pure ()
-    let s : KState := { s with nodes := s.nodes ++ [({ key := k, creator := creator, detached := d } : Node)] }
-    s.initRow k init false
+    if s.insertAllowed k creator then (s.appendNode k creator).initRow k init false
+    else throw .integrity
 
 /-! ## `Trellis.delete_detached` -/
 
